@@ -1,7 +1,7 @@
 """C05 — a test passes only if it completed with the expected exit code and output."""
 from ..cfgq import (aggregates, bool_edges, cond_tree, place_key, promoted_tree, reach_consistent,
                     result_variant_blocks, variant_edges, switches, stmt_loc)
-from ..facts import AnchorError, Origins, method_name, peel, strip_mods
+from ..facts import AnchorError, Origins, method_name, mname, peel, strip_mods
 
 ACCEPT_WITHOUT_CODE = {"Detached"}  # detached executions are not waited for and push no outcome (R20.4)
 
@@ -255,8 +255,21 @@ def r5_4b(ctx):
     timeouts = [(bb, si) for bb, si, rv in aggregates(f, "ExitStatus", "Timeout") if "subprocess" not in rv["adt"]]
     if not tests or not timeouts:
         raise AnchorError("SubprocessRunner::run: `kind == ErrorKind::TimedOut` test (%d) or ExitStatus::Timeout construction (%d) not found" % (len(tests), len(timeouts)))
+    # a bounded wait for the child that expired is a timeout as well: the None edge of `Popen::wait_timeout(..)`, or the default
+    # operand of `map_or` / `unwrap_or` on that result
+    wt_none, wt_default = [], set()
+    for sb, t in switches(f):
+        ve, rv = variant_edges(f, sb)
+        if ve is not None and set(ve) == {"None", "Some"} and o.place(rv["place"]).has_call("Popen::wait_timeout"):
+            wt_none.append((sb, ve["None"]))
+    for cb, t in f.calls():
+        if mname(t) in ("Option::map_or", "Option::unwrap_or") and o.operand(t["args"][0]).has_call("Popen::wait_timeout"):
+            for n in o.operand(t["args"][1]).walk():
+                if n.kind == "agg" and n.at is not None:
+                    wt_default.add(n.at[0])
     for bb, si in timeouts:
         good = any(bb in f.reachable(tt) and bb not in f.reachable(0, removed_edges=[(sb, tt)]) for sb, (tt, tf) in tests)
+        good = good or any(bb in f.reachable(tn) and bb not in f.reachable(0, removed_edges=[(sb, tn)]) for sb, tn in wt_none) or bb in wt_default
         ctx.check(good, "timeout-edge", stmt_loc(f, bb, si), "ExitStatus::Timeout is constructed only on a `kind == TimedOut` edge",
                   "ExitStatus::Timeout is constructed without a dominating `kind == ErrorKind::TimedOut` edge")
     # the non-timeout error path must not fabricate an exit code
@@ -264,6 +277,36 @@ def r5_4b(ctx):
         codes = [(bb, si) for bb, si, rv in aggregates(f, "ExitStatus", "Code") if "subprocess" not in rv["adt"] and bb in f.reachable(tf) and bb not in f.reachable(0, removed_edges=[(sb, tf)])]
         ctx.check(not codes, "error-path-no-code", f.loc(sb), "the read-error path that is not a timeout constructs no literal exit code",
                   "a communicate() error that is not a timeout is turned into ExitStatus::Code")
+
+
+NOT_SIGNALS = {"EXIT", "0", "ERR", "DEBUG", "RETURN"}
+
+
+def r5_7(ctx):
+    """the wrapper script catches no signal: its only handler ends with `exit <code of the last command>`, so a shell that handled
+    SIGTERM / SIGHUP / SIGINT there would end *normally* (often with 0) and the Signaled status - which scrut maps to `no exit
+    code`, never a success - would not reach SubprocessRunner at all"""
+    import re, shlex
+    from . import c12
+    tpl = c12.template(ctx.prog)
+    where = "src/executors/bash_runner.template"
+    segs = c12._segments(tpl.replace("{shell_expression}", ":"))
+    traps = [x for x in segs if re.match(r"^trap(\s|$)", x)]
+    if not traps:
+        raise AnchorError("no trap statement in the bash runner template")
+    for i, x in enumerate(traps):
+        try:
+            words = shlex.split(x)[1:]
+        except ValueError:
+            words = x.split()[1:]
+        while words and words[0].startswith("-") and words[0] not in ("-",):
+            words = words[1:]           # options (-p, -l, --)
+        handler, specs = (words[0], words[1:]) if words else (None, [])
+        caught = [w for w in specs if w.upper() not in NOT_SIGNALS and handler != "-"]
+        ctx.check(not caught, "no-signal-handler:%s" % " ".join(specs or ["-"]), where,
+                  "`%s` handles no signal (EXIT only): a shell killed by a signal dies of it and is seen as Signaled" % x,
+                  "`%s` installs a handler for %s: the handler ends with `exit $?`-style code of the last *completed* command, so a shell hit by that signal exits "
+                  "normally (0 after `kill $$`), the rest of the shell expression never runs and the test case is reported as succeeded when the output so far matches" % (x, caught))
 
 
 def run(ctx):
@@ -274,3 +317,4 @@ def run(ctx):
     ctx.run_rule("R5.3", "validate: the diffed stream is output.stderr exactly on output_stream == Some(Stderr), output.stdout otherwise [E-FLOW]", r5_3, floor=4)
     ctx.run_rule("R5.4", "subprocess exit mapping: Signaled/Undetermined never become Code; Exited/Other carry their own payload [E-TABLE]", r5_4, floor=4)
     ctx.run_rule("R5.4b", "SubprocessRunner::run: Timeout only on the kind==TimedOut edge; other read errors yield no exit code [E-PATH]", r5_4b, floor=2)
+    ctx.run_rule("R5.7", "the bash wrapper handles no signal (its handler is armed for EXIT only): death by signal stays visible as Signaled => Unknown [template analyzer]", r5_7, floor=1)
